@@ -434,6 +434,32 @@ static char *create_tmpfile(void) {
   return path;
 }
 
+// The output file that the running step is to produce, and what was
+// there before the step.
+static char *step_output;
+static bool step_output_existed;
+static struct stat step_output_stat;
+
+static void begin_step(char *output) {
+  step_output = output;
+  step_output_existed = output && !stat(output, &step_output_stat);
+}
+
+// A step that fails may have written part of its output. What it left
+// is removed, as long as it is a regular file that the step made or
+// changed.
+static void discard_step_output(void) {
+  struct stat st;
+  if (!step_output || stat(step_output, &st) || !S_ISREG(st.st_mode))
+    return;
+  if (step_output_existed && st.st_ino == step_output_stat.st_ino &&
+      st.st_size == step_output_stat.st_size &&
+      st.st_mtim.tv_sec == step_output_stat.st_mtim.tv_sec &&
+      st.st_mtim.tv_nsec == step_output_stat.st_mtim.tv_nsec)
+    return;
+  unlink(step_output);
+}
+
 static void run_subprocess(char **argv) {
   // If -### is given, dump the subprocess's command line.
   if (opt_hash_hash_hash) {
@@ -465,8 +491,11 @@ static void run_subprocess(char **argv) {
       exit(1);
     }
   }
-  if (status != 0)
+  if (status != 0) {
+    discard_step_output();
     exit(1);
+  }
+  step_output = NULL;
 }
 
 static void run_cc1(int argc, char **argv, char *input, char *output) {
@@ -484,6 +513,9 @@ static void run_cc1(int argc, char **argv, char *input, char *output) {
     args[argc++] = output;
   }
 
+  // Without an output file of its own, cc1 writes to the file named
+  // by -o, if any (-E, -M).
+  begin_step(output ? output : opt_o);
   run_subprocess(args);
 }
 
@@ -662,6 +694,7 @@ static void cc1(void) {
 
 static void assemble(char *input, char *output) {
   char *cmd[] = {"as", "-c", input, "-o", output, NULL};
+  begin_step(output);
   run_subprocess(cmd);
 }
 
